@@ -47,6 +47,7 @@ class World(object):
     util.sleep = self.vt.sleep
     protocols.time = self.vt
     memdb.CLOCK[0] = self.vt.time
+    memdb.TICK[0] = self.tick
     self.reactor = FakeRunning()
     writer.reactor = self.reactor
     self.orig_lag = self.settings.MIN_TIMESTAMP_LAG
@@ -75,7 +76,7 @@ class World(object):
 
   # ------------------------------------------------------------------ one execution
   def run(self, recv_ops, writer_plan, policy=None, step_monitor=None, timeout=30.0, drain_rest=True,
-          t0_offset=0.0, receivers=0, pre=None, snap_stores=False):
+          t0_offset=0.0, receivers=0, pre=None, snap_stores=False, fault_plan=None):
     cc, writer, state = self.cc, self.writer, self.state
     import random as _random
     _random.seed(424242)          # RandomStrategy uses the global PRNG: keep runs replayable
@@ -92,6 +93,8 @@ class World(object):
     state.metricReceiversPaused = False
     self.instr.stats.clear()
     memdb.reset()
+    if fault_plan:
+      memdb.FAULT_PLAN.update({int(k): v for k, v in fault_plan.items()})
     state.database.files.clear()
     self.settings['MIN_TIMESTAMP_LAG'] = self.orig_lag
     self.reactor.running = True
@@ -187,7 +190,9 @@ class World(object):
     real_drain = type(cache).drain_metric
 
     def drain_wrapper():
-      d = dict(call=tick(), acquires=0, releases=0, snap=None, snap_now=None, vt_call=self.vt.time())
+      d = dict(call=tick(), acquires=0, releases=0, snap=None, snap_now=None, vt_call=self.vt.time(),
+               stats0=dict((k, self.instr.stats.get(k, 0)) for k in ('committedPoints', 'creates', 'droppedCreates', 'errors')),
+               logerr0=len(self.ns.tripwires.log_errors) - log_err0)
       drain_state['active'] = d
       try:
         r = real_drain(cache)
@@ -336,6 +341,7 @@ class World(object):
     h.log_errors = list(self.ns.tripwires.log_errors[log_err0:])
     h.backend = list(memdb.CALL_LOG)
     h.stats = dict(self.instr.stats)
+    h.end_tick = self.tick()
     h.final = {m: dict(v) for m, v in cache.items()}
     h.final_size = cache.size
     h.final_len = len(cache)
